@@ -110,6 +110,8 @@ func init() {
 	}})
 	register(&PropertyRule{ID: "C20", Explain: "structural necessary conditions of C20 (proposal integrity): see DESIGN.md §5 C20", Run: func(c *Check) {
 		c20Proposals(c)
+		sliceRules(c)    // what is replicated is a contiguous slice of the log: nothing skipped, nothing twice
+		c10AutoLeave(c) // the only proposal raft makes on its own, once per joint configuration
 		c04Noop(c)
 		gStamp(c)
 		c10Gate(c)
